@@ -16,6 +16,7 @@ import (
 	"github.com/zeromicro/go-zero/core/logx"
 	"github.com/zeromicro/go-zero/core/stat"
 	"github.com/zeromicro/go-zero/core/stores/cache"
+	"github.com/zeromicro/go-zero/core/stores/monc"
 	"github.com/zeromicro/go-zero/core/stores/redis"
 	"github.com/zeromicro/go-zero/core/stores/sqlc"
 	"github.com/zeromicro/go-zero/core/stores/sqlx"
@@ -211,6 +212,14 @@ const (
 
 var readKindNames = [...]string{"QueryRow", "Take", "QueryRowIndex", "GetCache"}
 
+// rn: the name of the read call as the API under test has it.
+func (w *world) rn(c *call) string {
+	if w.monc && c.kind != rGet {
+		return "FindOne"
+	}
+	return readKindNames[c.kind]
+}
+
 type outcome int
 
 const (
@@ -323,6 +332,18 @@ type step struct {
 	wroteVer   int
 	cx         ctxPlan // the request context of the call (writes; a read has one per reader)
 	dbErr      error   // Exec: what the database closure returned
+
+	// monc member
+	monc        bool
+	mon         monMethod // the write method of monc.Model that carries the step
+	upsert      bool      // ... is called with the upsert option
+	noDoc       bool      // set by the oracle: the step is a find-and-modify that was answered "no document" and changed nothing
+	noMatch     bool      // a find-and-modify that finds no document and does not upsert: no effect, the not-found error
+	upsertNoDoc bool      // a find-and-modify that upserted: the write took effect, the result is "no document" (there was none before)
+	monBefore   row       // the document as it was before the write
+	monRes      any       // what the stub collection returned
+	monGot      any       // what monc.Model returned
+	monV        row       // find-and-modify: the destination after the call
 }
 
 type rule struct {
@@ -370,6 +391,8 @@ type world struct {
 	variant int
 	faulty  bool
 	ctxy    bool // request contexts may end while (or before) an operation runs
+	monc    bool // the cache-aside API under test is monc.Model (Mongo cached model) instead of sqlc.CachedConn
+	mm      *monc.Model
 	e, nfe  time.Duration
 	maxJump time.Duration // longest single clock advance (one wheel tick per virtual second)
 
@@ -383,6 +406,7 @@ type world struct {
 	execs     []*qexec
 	rules     []*rule
 	dels      []delExec
+	delSent   []delExec // DEL commands sent (onExec records the executed ones in dels)
 	htask     map[int]bool
 	taskCmds  map[int]int // store commands sent, by task
 	lastFault time.Time
@@ -494,6 +518,12 @@ func (w *world) doRead(st *step, c *call) {
 	ent := st.ent
 	var v row
 	ctx := c.cx.open(w)
+	if w.monc {
+		c.err = w.monRead(ctx, st, c, &v)
+		c.cx.close()
+		w.classify(c, v)
+		return
+	}
 	checkExpire := func(expire time.Duration) {
 		// the expiry handed to the loader is the one the entry is going to be written with
 		if expire < w.minTTL(w.e)-time.Millisecond || expire > time.Duration(1.05*float64(w.e))+time.Millisecond {
@@ -579,6 +609,10 @@ func (w *world) doRead(st *step, c *call) {
 		}
 	}
 	c.cx.close()
+	w.classify(c, v)
+}
+
+func (w *world) classify(c *call, v row) {
 	c.got = v
 	switch {
 	case c.err == nil:
@@ -591,7 +625,7 @@ func (w *world) doRead(st *step, c *call) {
 		c.out = oStoreErr
 	}
 	if w.cache != nil && w.cache.IsNotFound(c.err) != (c.out == oNotFound) {
-		w.fail("is-not-found-mismatch", "call %d (%s) returned %v; Cache.IsNotFound says %v, the configured not-found error is %q", c.id, readKindNames[c.kind], c.err, w.cache.IsNotFound(c.err), w.errNF)
+		w.fail("is-not-found-mismatch", "call %d (%s) returned %v; Cache.IsNotFound says %v, the configured not-found error is %q", c.id, w.rn(c), c.err, w.cache.IsNotFound(c.err), w.errNF)
 	}
 }
 
@@ -622,6 +656,11 @@ func (w *world) doWrite(st *step) {
 	if st.kind != kNoCache {
 		ctx = st.cx.open(w)
 	}
+	if w.monc {
+		w.monWrite(ctx, st, keys)
+		st.cx.close()
+		return
+	}
 	switch st.kind {
 	case kNoCache:
 		st.connPre = len(w.conn.log.calls)
@@ -646,36 +685,9 @@ func (w *world) doWrite(st *step) {
 		}
 	case kWrite, kDelete, kFailExec:
 		exec := func(ctx context.Context) (sql.Result, error) {
-			// a database that honours the request context gives up a statement whose context is done
-			if err := st.cx.aborts(ctx); err != nil {
-				return nil, w.abortedWrite(st, err)
+			if err := w.dbWrite(ctx, st); err != nil {
+				return nil, err
 			}
-			for i := 0; i < st.qYields; i++ {
-				w.r.Yield()
-			}
-			if st.qLat > 0 {
-				w.r.Sleep(st.qLat)
-			}
-			if err := st.cx.aborts(ctx); err != nil {
-				return nil, w.abortedWrite(st, err)
-			}
-			if st.kind == kFailExec {
-				st.dbErr = errWrite
-				return nil, errWrite
-			}
-			for _, ent := range st.ents() {
-				if st.kind == kWrite {
-					w.nVer++
-					ent.ver = w.nVer
-				} else {
-					ent.ver = 0
-				}
-				ent.hist = append(ent.hist, ent.ver)
-				w.r.Ev("db-write", int64(ent.idx), int64(ent.ver))
-			}
-			st.wroteVer = ent.ver
-			// the write took effect: whatever becomes of the context now, the closure reports success
-			st.cx.inDB(w)
 			return execResult{}, nil
 		}
 		if ctx == nil {
@@ -720,6 +732,49 @@ func (w *world) doWrite(st *step) {
 	st.cx.close()
 }
 
+// dbWrite is the body of every database write (the Exec closure of sqlc, the write methods of the
+// stub collection of monc): latency, context handling, injected failure, effect.  nil: the write
+// took effect.
+func (w *world) dbWrite(ctx context.Context, st *step) error {
+	// a database that honours the request context gives up a statement whose context is done
+	if err := st.cx.aborts(ctx); err != nil {
+		return w.abortedWrite(st, err)
+	}
+	for i := 0; i < st.qYields; i++ {
+		w.r.Yield()
+	}
+	if st.qLat > 0 {
+		w.r.Sleep(st.qLat)
+	}
+	if err := st.cx.aborts(ctx); err != nil {
+		return w.abortedWrite(st, err)
+	}
+	if st.kind == kFailExec {
+		st.dbErr = errWrite
+		return errWrite
+	}
+	if st.noMatch {
+		// a find-and-modify that matches no document (and does not upsert) changes nothing and says so
+		st.dbErr = w.errNF
+		w.r.Probe("db-write-matched-no-document")
+		return w.errNF
+	}
+	for _, ent := range st.ents() {
+		if st.kind == kWrite {
+			w.nVer++
+			ent.ver = w.nVer
+		} else {
+			ent.ver = 0
+		}
+		ent.hist = append(ent.hist, ent.ver)
+		w.r.Ev("db-write", int64(ent.idx), int64(ent.ver))
+	}
+	st.wroteVer = st.ent.ver
+	// the write took effect: whatever becomes of the context now, the database reports success
+	st.cx.inDB(w)
+	return nil
+}
+
 // abortedWrite: the database gave the statement up, nothing was written.
 func (w *world) abortedWrite(st *step, cause error) error {
 	w.nErr++
@@ -760,10 +815,13 @@ func (w *world) observe(n *node, c *simredis.Cmd) {
 		return
 	}
 	if name == "DEL" {
+		h, clk := w.isHarness(c.Task), w.tick()
 		for _, k := range c.Args[1:] {
 			if o := w.owner[k]; o != nil && o != n {
 				w.r.Probe("del-sent-to-foreign-node")
 			}
+			// a DEL that left the client (it may still be lost, refused or answered with an error)
+			w.delSent = append(w.delSent, delExec{key: k, clk: clk, harness: h})
 		}
 		return
 	}
@@ -833,7 +891,9 @@ func (w *world) breakerRisk(n *node) bool {
 	cnt := 0
 	now := time.Now()
 	for _, at := range n.faults {
-		if now.Sub(at) <= 11*time.Second {
+		// (an injected failure is noted when the command is sent; a lost request or reply fails the
+		// command - and is counted by the breaker - only a read time-out of 3 s later)
+		if now.Sub(at) <= breakerWindow {
 			cnt++
 		}
 	}
@@ -957,6 +1017,10 @@ func newWorld(r *simrt.Run, tier string) *world {
 	if w.ctxy {
 		r.Probe("ctx-member")
 	}
+	w.monc = t.Intn(4) == 3
+	if w.monc {
+		r.Probe("monc-member")
+	}
 	w.variant = t.Intn(4)
 	w.cluster = w.variant == 3
 	ne := len(expiries)
@@ -1008,31 +1072,64 @@ func newWorld(r *simrt.Run, tier string) *world {
 		}
 		return &cache.Stat{}
 	}
+	// the API under test on top of the cache: sqlc.CachedConn over the fake connection, or monc.Model
+	// over the stub collection (monc: the not-found error of the cache must be the one the database
+	// reports, mongo.ErrNoDocuments, as in all of monc's own constructors)
+	ownNF := func() error {
+		if w.monc {
+			return monc.ErrNotFound
+		}
+		return errors.New("c06: no such row")
+	}
+	libNF := func() error {
+		if w.monc {
+			return monc.ErrNotFound
+		}
+		return sqlc.ErrNotFound
+	}
+	withCache := func(c cache.Cache) {
+		if w.monc {
+			w.mm = monc.VerifNewModel(w.newMonModel(), c)
+		} else {
+			w.cc = sqlc.NewConnWithCache(w.conn, c)
+		}
+	}
+	withConf := func(conf cache.CacheConf) {
+		if w.monc {
+			w.mm = monc.VerifNewConfModel(w.newMonModel(), conf, opts...)
+		} else {
+			w.cc = sqlc.NewConn(w.conn, conf, opts...)
+		}
+	}
 	switch w.variant {
 	case 0:
 		// the harness builds the node: own barrier, own stat, own not-found error
 		n := w.newNode("", 100)
 		rds := redis.New(n.addr, redis.WithHook(n.srv.Hook()))
-		w.errNF = errors.New("c06: no such row")
+		w.errNF = ownNF()
 		w.cache = cache.NewNode(rds, syncx.NewSingleFlight(), newStat(n.addr), w.errNF, opts...)
-		w.cc = sqlc.NewConnWithCache(w.conn, w.cache)
+		withCache(w.cache)
 	case 1:
 		n := w.newNode("", 100)
 		rds := redis.New(n.addr, redis.WithHook(n.srv.Hook()))
-		w.errNF = sqlc.ErrNotFound
-		w.cc = sqlc.NewConnWithCache(w.conn, cache.NewNode(rds, syncx.NewSingleFlight(), &cache.Stat{}, sqlc.ErrNotFound, opts...))
+		w.errNF = libNF()
+		if w.monc {
+			w.mm = monc.VerifNewNodeModel(w.newMonModel(), rds, opts...) // = monc.NewNodeModel
+		} else {
+			w.cc = sqlc.NewConnWithCache(w.conn, cache.NewNode(rds, syncx.NewSingleFlight(), &cache.Stat{}, sqlc.ErrNotFound, opts...))
+		}
 	case 2:
 		// cache.New with a one-node cluster configuration.  It builds its own redis.Redis from the
 		// configuration (no way to pass a hook), so the go-redis client for this address is created
 		// first, with the transport hook, through rds; go-zero shares clients by address.
 		n := w.newNode("", 100)
 		rds := redis.New(n.addr, redis.WithHook(n.srv.Hook()))
-		w.errNF = sqlc.ErrNotFound
+		w.errNF = libNF()
 		if !rds.Ping() {
 			r.EngineError("c06: cannot reach the simulated redis")
 		}
 		conf := cache.CacheConf{{RedisConf: redis.RedisConf{Host: n.addr, Type: redis.NodeType, NonBlock: t.Bool(), PingTimeout: time.Minute}, Weight: 100}}
-		w.cc = sqlc.NewConn(w.conn, conf, opts...)
+		withConf(conf)
 	default:
 		// a cluster of 2-3 nodes with weights.  The node address is what the consistent hash places
 		// on the ring, so the addresses (and the key names, below) come from the tape.
@@ -1049,12 +1146,12 @@ func newWorld(r *simrt.Run, tier string) *world {
 		}
 		w.pfx = fmt.Sprint(t.Intn(1000))
 		if t.Bool() {
-			w.errNF = sqlc.ErrNotFound
-			w.cc = sqlc.NewConn(w.conn, conf, opts...)
+			w.errNF = libNF()
+			withConf(conf)
 		} else {
-			w.errNF = errors.New("c06: no such row")
+			w.errNF = ownNF()
 			w.cache = cache.New(conf, syncx.NewSingleFlight(), newStat("c06"), w.errNF, opts...)
-			w.cc = sqlc.NewConnWithCache(w.conn, w.cache)
+			withCache(w.cache)
 		}
 		r.Probe("cluster")
 	}
@@ -1089,9 +1186,12 @@ func (w *world) placement() {
 		for _, k := range ent.keys() {
 			var v row
 			var err error
-			if w.cache != nil {
+			switch {
+			case w.cache != nil:
 				err = w.cache.Get(k, &v)
-			} else {
+			case w.monc:
+				err = w.mm.GetCache(k, &v)
+			default:
 				err = w.cc.GetCache(k, &v)
 			}
 			if !errors.Is(err, w.errNF) {
@@ -1218,7 +1318,13 @@ func (w *world) genStep(ent *entity, allowWrite bool) *step {
 		if n == 1 && t.Chance(1, 8) {
 			st.readers[0].kind = rGet
 		}
+		if w.monc {
+			w.monAdapt(st)
+		}
 		for _, c := range st.readers {
+			if w.monc && c.kind == rGet {
+				continue // monc.Model.GetCache takes no context
+			}
 			c.cx = w.drawCtx(c.kind != rGet, st.qLat)
 		}
 		if t.Chance(1, 5) {
@@ -1229,7 +1335,12 @@ func (w *world) genStep(ent *entity, allowWrite bool) *step {
 		}
 	}
 	if st.kind != kRead {
-		st.cx = w.drawCtx(st.kind == kWrite || st.kind == kDelete || st.kind == kFailExec, st.qLat)
+		if w.monc {
+			w.monAdapt(st)
+		}
+		if !w.monc || st.kind != kSetCache { // monc.Model.SetCache takes no context
+			st.cx = w.drawCtx(st.kind == kWrite || st.kind == kDelete || st.kind == kFailExec, st.qLat)
+		}
 	}
 	if w.faulty {
 		w.genFault(st)
@@ -1290,8 +1401,17 @@ func (st *step) String() string {
 	if len(st.more) > 0 {
 		s += fmt.Sprintf(" keys=%v", st.keyList)
 	}
-	if st.kind == kNoCache {
+	if st.kind == kNoCache && st.nocache < len(noCacheNames) {
 		s += " " + noCacheNames[st.nocache]
+	}
+	if st.kind == kNoCache && st.nocache == len(noCacheNames) {
+		s += " FindOneNoCache"
+	}
+	if st.monc && (st.kind == kWrite || st.kind == kDelete || st.kind == kFailExec) {
+		s += " via " + monMethodNames[st.mon]
+		if st.upsert {
+			s += "(upsert)"
+		}
 	}
 	if st.kind == kDelCache && st.only > 0 {
 		s += " only " + st.ent.keys()[st.only-1]
@@ -1302,7 +1422,11 @@ func (st *step) String() string {
 			if i > 0 {
 				s += " "
 			}
-			s += readKindNames[c.kind]
+			if st.monc && c.kind != rGet {
+				s += "FindOne"
+			} else {
+				s += readKindNames[c.kind]
+			}
 			if c.cx.mode != cNone {
 				s += "(" + c.cx.String() + ")"
 			}
@@ -1355,6 +1479,12 @@ func (w *world) genMulti() *step {
 		st.more = append(st.more, w.ents[i])
 	}
 	st.kind = []stepKind{kDelCache, kWrite, kDelete}[t.Intn(3)]
+	if w.monc {
+		if st.kind == kDelete {
+			st.kind = kWrite // the only multi-key write of monc.Model is UpdateMany
+		}
+		w.monAdapt(st)
+	}
 	st.qLat = w.drawLat()
 	st.qYields = t.Intn(3)
 	st.direct = t.Bool()
@@ -1374,7 +1504,11 @@ func (w *world) genMulti() *step {
 }
 
 func (w *world) genNoCache() *step {
-	return &step{kind: kNoCache, ent: w.ents[w.t.Intn(len(w.ents))], nocache: w.t.Intn(len(noCacheNames))}
+	st := &step{kind: kNoCache, ent: w.ents[w.t.Intn(len(w.ents))], nocache: w.t.Intn(len(noCacheNames))}
+	if w.monc {
+		st.nocache = len(noCacheNames) // FindOneNoCache
+	}
+	return st
 }
 
 // item generates and runs the next element of the history.
@@ -1516,6 +1650,7 @@ func (w *world) addRule(st *step, ru *rule) {
 
 func (w *world) prepare(st *step) {
 	ent := st.ent
+	st.monc = w.monc
 	st.pre[0], st.pre[1] = w.snapKey(ent.pkey), w.snapKey(ent.ikey)
 	st.dirtyPre = ent.dirty()
 	st.pendPre = w.cleanerPending(ent)
@@ -1665,6 +1800,13 @@ func body(r *simrt.Run, tier string) {
 	construction := []string{"cache.NewNode+NewConnWithCache", "sqlc.NewNodeConn", "sqlc.NewConn(one-node cluster conf)", "sqlc.NewConn(cluster conf)"}[w.variant]
 	if w.cluster && w.cache != nil {
 		construction = "cache.New(cluster conf)+NewConnWithCache"
+	}
+	if w.monc {
+		construction = []string{"cache.NewNode+monc.NewModelWithCache", "monc.NewNodeModel", "monc.NewModel(one-node cluster conf)", "monc.NewModel(cluster conf)"}[w.variant]
+		if w.cluster && w.cache != nil {
+			construction = "cache.New(cluster conf)+monc.NewModelWithCache"
+		}
+		construction += " over the stub mon.Collection (seam constructors: no mongo client)"
 	}
 	fired := map[string]int{}
 	for _, n := range w.nodes {
